@@ -452,7 +452,7 @@ fn check(case: &Case, ctx: &mut Ctx) {
     }
     if all_true {
         if !stored_new || res.is_err() {
-            ctx.fail("valid_paid_upload_rejected", format!("{:?}: every payment condition holds, yet result {res:?}, stored={stored_new}", case.kind));
+            ctx.precondition_failed("valid_paid_upload_rejected", format!("{:?}: every payment condition holds, yet result {res:?}, stored={stored_new}", case.kind));
         } else {
             if after.get(&pl.key.to_vec()) != Some(&pl.expect_value) {
                 ctx.fail("stored_bytes_differ_from_upload", format!("{:?}", case.kind));
